@@ -279,7 +279,9 @@ type c08Op struct {
 	D    int16 // minutes
 }
 
-func (o c08Op) keyed() bool { return o.Kind == c08Reg || o.Kind == c08Val || o.Kind == c08Con || o.Kind == c08Ingest }
+func (o c08Op) keyed() bool {
+	return o.Kind == c08Reg || o.Kind == c08Val || o.Kind == c08Con || o.Kind == c08Ingest
+}
 
 // c08Enum describes one exhaustive enumeration.
 type c08Enum struct {
@@ -1206,20 +1208,33 @@ func TestVerifC08Exhaustive(t *testing.T) {
 			{op(c08Reg, 0), adv(7), sweep, adv(4), sweep},
 			{op(c08Reg, 0), op(c08Val, 0), op(c08Con, 0), adv(180), sweep, adv(240)},
 			{op(c08Reg, 0), op(c08Reg, 4), adv(7), op(c08Reg, 0), adv(4), sweep},
+			// one secret, two transports, same phantom (key 0 = s0/min/v4, key 2 = s0/prefix/v4)
+			{op(c08Reg, 0), op(c08Reg, 2), adv(180), sweep},
+			{op(c08Val, 0), op(c08Con, 0), op(c08Reg, 2), adv(240), adv(240), sweep},
+			{op(c08Val, 0), op(c08Reg, 2), op(c08Con, 0), adv(7), adv(4), sweep},
 		} {
 			sw.reset()
+			sw.seq, sw.reportFrom = h, 1<<30 // written out only, nothing is reported from here
 			var trace []string
 			for i, o := range h {
 				sw.apply(i, o)
-				sw.observe(i, o.Kind == c08Sweep)
-				sw.lookup(i)
+				if !sw.diverged {
+					sw.observe(i, o.Kind == c08Sweep)
+				}
+				if !sw.diverged {
+					sw.lookup(i)
+				}
 				n, recs := sw.rm.registeredDecoys.TotalRegistrations(), 0
 				sw.rm.registeredDecoys.m.RLock()
 				recs = len(sw.rm.registeredDecoys.decoysTimeouts)
 				sw.rm.registeredDecoys.m.RUnlock()
 				trace = append(trace, fmt.Sprintf("%s -> tracked %d, timeout records %d", u.opString(o), n, recs))
 			}
-			rec.Sample(map[string]interface{}{"history": trace, "disagreements_with_reference": len(sw.viols)})
+			var dis []string
+			for _, v := range sw.viols {
+				dis = append(dis, fmt.Sprintf("after operation %d: %s", v.pos+1, v.sig))
+			}
+			rec.Sample(map[string]interface{}{"history": trace, "disagreements_with_reference": dis})
 		}
 	})
 }
